@@ -370,8 +370,52 @@ def struct_rules(ctx, item):
         det = 'type %s path %s/%s dedup %s source %s' % (show(te), p1, p2, labs, base[:60])
         oka = same_t and p1 == p2 and pair and len(labs) == 2 and 'len' in labs[0] and labs[0].startswith('Gt(') and labs[0].endswith(', 1)=True') and 'dfs_hierarchy' in base and \
             re.search(r'impl (?::: )?(?:std|core) :: convert :: AsRef < ' + H + ' > for ' + H + r' \{ fn as_ref \( & self \) -> & ' + H + r' \{ self \} \}', once) is not None
+    # the grouping map that the dedup test indexes: every (type, path) entry is *added to* the list of its type
+    # (entry(type).or_default().push(path)), for every entry of the same vector — a map built by overwriting would make every
+    # group look unique and emit conflicting impls
+    bt_ = ctx.prog.fns.get('backends::rust::build_type')
+    okg = False
+    detg = 'no accumulating push into a per-type list found'
+    if bt_ is not None:
+        for g in [bt_] + ctx.prog.closures_of(bt_):
+            for c in g.calls(lambda r: r['path'] and r['path'].endswith('Vec::<T, A>::push')):
+                recv = g.expr_of_operand(c['term']['args'][0])
+                od = [x for x in walk(recv) if is_call_(x, 'Entry') and x[1].endswith('::or_default')]
+                if not od or not is_call_(strip(od[0][2][0]), '::entry'):
+                    continue
+                key = strip(strip(od[0][2][0])[2][1])
+                val = strip(g.expr_of_operand(c['term']['args'][1]))
+                # per element: the closure of a fold over the hierarchy vector, or a loop over it, with the push on every trip
+                per_elem = False
+                if g.kind == 'Closure':
+                    for cf_ in bt_.calls(lambda r: r['gpath'] and r['gpath'].endswith('Iterator::fold')):
+                        fe = bt_.expr_of_call(cf_['term'])
+                        if len(fe[2]) == 3 and fe[2][2][0] == 'closure' and fe[2][2][1] == g.id and not g.switches():
+                            src_ = expand(bt_, fe[2][0])
+                            per_elem = bool(find_calls_(src_, 'dfs_hierarchy')) and not any(re.search(r'Iterator::(rev|skip|take|filter|step_by)$', c_[3]) for c_ in calls_in(src_))
+                else:
+                    from guards import innermost_loop, loop_source
+                    from r_panic import cycle_without
+                    L = innermost_loop(g, c['block'])
+                    if L:
+                        sty, src_ = loop_source(g, L)
+                        src_ = expand(g, src_)
+                        per_elem = not cycle_without(g, L[1], L[0], {c['block']}) and bool(find_calls_(src_, 'dfs_hierarchy')) and \
+                            not any(re.search(r'Iterator::(rev|skip|take|filter|step_by)$', c_[3]) for c_ in calls_in(src_))
+                same_elem = key[0] == 'field' and val[0] == 'field' and strip(key[1]) == strip(val[1]) and key[2] != val[2]
+                detg = 'push(entry(%s).or_default(), %s), once per hierarchy entry: %s' % (show(key)[:30], show(val)[:30], per_elem)
+                okg = per_elem and same_elem
+        # nothing else writes a map of that type
+        others = [c for g in [bt_] + ctx.prog.closures_of(bt_) for c in g.calls(lambda r: r['path'] and re.search(r'HashMap<&syn::Type, .*>::(insert|extend|remove)$|FromIterator<\(&syn::Type', (r['callee'].get('rfull') or '')))]
+        okg = okg and not others
+    ctx.ob(['C07', 'C13'], 'R-TMPL', 'struct|asref-grouping', okg,
+           'the per-type grouping behind the conflict test accumulates every (type, path) of the hierarchy (entry().or_default().push()), never overwrites: %s' % detg, where)
     ctx.ob(['C07'], 'R-TMPL', 'struct|asref', oka,
            'for every (path, type) of dfs_hierarchy: AsRef<T>/AsMut<T> whose body is &self.<path> / &mut self.<path> with T and path from the same entry; suppressed (a const marker instead) exactly when that type occurs more than once; plus the reflexive impls: %s' % det, where)
+
+
+def find_calls_(e, frag):
+    return [x for x in walk(e) if is_call_(x, frag)]
 
 
 def is_call_(e, frag):
